@@ -126,6 +126,10 @@ func C03(r *drv.Run) {
 		if i%5 == 0 {
 			alpha = append(alpha, '\r', 0xC3, 0xA9)
 		}
+		if i%7 == 3 {
+			// CR-only line ends, NUL, form feed, vertical tab: none of them is a newline
+			alpha = append(alpha, '\r', '\r', 0x00, 0x0c, 0x0b)
+		}
 		sm := gen.NewSampler(rng, p, alpha)
 		texts := sm.Inputs(p.Commands[0].Body, ntext, maxLenFor(p, 16))
 		// multi-line concatenations so that matches start on later lines and span newlines
@@ -139,6 +143,10 @@ func C03(r *drv.Run) {
 			if len(k) <= 20 {
 				texts = append(texts, k)
 			}
+		}
+		if len(texts) > 0 && i%4 == 1 {
+			// a byte-order mark in front, no newline at the end / a lone CR at the end
+			texts = append(texts, append([]byte("\xEF\xBB\xBF"), texts[0]...), append(append([]byte{}, texts[len(texts)-1]...), '\r'))
 		}
 		c := wire.Case{Op: "run", Src: []byte(src), Texts: texts, StepBudget: 400000}
 		am := p.Commands[0].Amount
